@@ -29,7 +29,8 @@ Definition wf_fieldb (c : fieldcfg) : bool :=
   | None => false
   | Some n =>
     match f_ptype c with
-    | PTDec => false                                               (* decimal: modelled by text (model/Dec.v, props/C01dec.v), outside this domain *)
+    | PTDec => (1 <=? n) &&                                        (* decimal (model/Dec.v): format(d, '0<n>f') needs n >= 1 *)
+               match f_proc c with PNone => true | _ => false end  (* and no processor at all *)
     | PTStr => match f_proc c with
                | PICC | PPDS => is_var (f_type c)
                | PDE43 => de43_modelledb (f_de43 c)                (* a splitting pattern inside the modelled regex fragment *)
@@ -92,6 +93,18 @@ Definition wf_valb (c : fieldcfg) (cd : codec) (v : value) : bool :=
   | PTDate, VDate d =>
     wf_dateb (f_datefmt c) d &&
     match strftime_m (f_datefmt c) d with Ok s => len_okb c (length s) && encodable cd s | _ => false end
+  (* a decimal element: the value is a Decimal carried by its text t (model/Dec.v): t reads as a plain fixed-point
+     decimal d (digits 0..9, no leading zero), t is exactly what Python prints for it (str(d), no exponent notation),
+     and the rendered text format(d, '0<w>f') has an admissible length (fixed: exactly the width, i.e. the number
+     needs at most w characters; LL / LLL: at most 99 / 999) and only characters of the codec (digits, '-', '.').
+     An int given for a decimal element is outside: it comes back as a Decimal, not as the int *)
+  | PTDec, VStr t =>
+    match f_len c, dec_parse t with
+    | Some w, DPlain d =>
+      wf_decb d && match dec_str d with Some t' => str_eqb t' t | None => false end
+      && len_okb c (length (dec_fmt w d)) && encodable cd (dec_fmt w d)
+    | _, _ => false
+    end
   | _, _ => false
   end.
 
